@@ -41,7 +41,12 @@ var z3NoMBQI = solverSpec{"z3-new-ematch", func(f string, t int) []string {
 }}
 
 func runSolver(s solverSpec, file string, timeoutS int) (status string, out string, secs float64) {
-	ctx, cancel := context.WithTimeout(context.Background(), time.Duration(timeoutS+2)*time.Second)
+	return runSolverCtx(context.Background(), s, file, timeoutS)
+}
+
+// runSolverCtx: as runSolver; cancelling parent kills the solver process (reported as a timeout).
+func runSolverCtx(parent context.Context, s solverSpec, file string, timeoutS int) (status string, out string, secs float64) {
+	ctx, cancel := context.WithTimeout(parent, time.Duration(timeoutS+2)*time.Second)
 	defer cancel()
 	a := s.args(file, timeoutS)
 	cmd := exec.CommandContext(ctx, a[0], a[1:]...)
@@ -142,10 +147,16 @@ func SolveAll(g *Gen, header string, results []*FnResult, outDir string, par int
 			if timeoutS > short {
 				cands = append(cands, solvers[0])
 			}
+			// quick tier: the first unsat answer decides, the solvers still running are killed
+			raceCtx, stopRace := context.WithCancel(context.Background())
+			defer stopRace()
 			for _, s := range cands {
 				go func(s solverSpec) {
 					sem <- struct{}{}
-					st, o, secs := runSolver(s, file, timeoutS)
+					st, o, secs := "timeout", "", 0.0
+					if raceCtx.Err() == nil {
+						st, o, secs = runSolverCtx(raceCtx, s, file, timeoutS)
+					}
 					<-sem
 					ch <- res{s, st, o, secs}
 				}(s)
@@ -167,6 +178,9 @@ func SolveAll(g *Gen, header string, results []*FnResult, outDir string, par int
 					if sr.Status != "unsat" {
 						sr.Status, sr.Solver, sr.Seconds, sr.Output = r.st, r.s.name, r.secs, r.o
 					}
+				}
+				if sr.Status == "unsat" {
+					stopRace()
 				}
 			}
 			_ = agree
